@@ -53,8 +53,70 @@ JudgeSimplify(r) ==
             Verdict(r.id, "UNMODELLED", refs[CHOOSE d \in unm : TRUE].s, 0, FALSE, changed, "")
        ELSE Verdict(r.id, "ACCEPT", "", 0, nontriv, changed, "")
 
+(* ---- change_extension_functions_to_calls : C17 ---- *)
+JudgeToFunc(r) ==
+    IF r.exc # "" THEN Verdict(r.id, "REJECT", "Total", 0, TRUE, FALSE, r.exc)
+    ELSE
+    LET in == r.in  out == r.out
+        refs == RefVals(in)
+        usable == {d \in 1..NData : Usable(refs[d])}
+        nontriv == HasMethodFormOp(in)
+        changed == in # out
+    IN IF out # ToFunctionForm(in) THEN Verdict(r.id, "REJECT", "Exact", 0, nontriv, changed, "")
+       ELSE IF HasMethodFormOp(out) THEN Verdict(r.id, "REJECT", "MethodFormLeft", 0, nontriv, changed, "")
+       ELSE IF r.out2 # out THEN Verdict(r.id, "REJECT", "Idempotent", 0, nontriv, changed, "")
+       ELSE IF \E d \in usable : EvalOn(out, d) # refs[d] THEN
+            Verdict(r.id, "REJECT", "Preserve",
+                    CHOOSE d \in usable : EvalOn(out, d) # refs[d], nontriv, changed, "")
+       ELSE Verdict(r.id, "ACCEPT", IF usable = {} THEN "structure-only" ELSE "", 0, nontriv, changed, "")
+
+(* ---- aggregate_node_transformer : C19 ---- *)
+JudgeAggregate(r) ==
+    IF r.exc # "" THEN Verdict(r.id, "REJECT", "Total", 0, TRUE, FALSE, r.exc)
+    ELSE
+    LET in == r.in  out == r.out
+        refs == RefVals(in)
+        usable == {d \in 1..NData : Usable(refs[d])}
+        nontriv == HasShortcut(in)
+        changed == in # out
+    IN IF ~AggMatch(in, out) THEN Verdict(r.id, "REJECT", "Skeleton", 0, nontriv, changed, "")
+       ELSE IF HasShortcut(out) THEN Verdict(r.id, "REJECT", "ShortcutLeft", 0, nontriv, changed, "")
+       ELSE IF ~FoldsRight(in, out) THEN Verdict(r.id, "REJECT", "FoldValue", 0, nontriv, changed, "")
+       ELSE IF \E d \in usable : EvalOn(out, d) # refs[d] THEN
+            Verdict(r.id, "REJECT", "Preserve",
+                    CHOOSE d \in usable : EvalOn(out, d) # refs[d], nontriv, changed, "")
+       ELSE Verdict(r.id, "ACCEPT", IF usable = {} THEN "structure-only" ELSE "", 0, nontriv, changed, "")
+
+(* ---- extract_metadata / remove_empty_metadata : C15 ---- *)
+JudgeExtract(r) ==
+    IF r.exc # "" THEN Verdict(r.id, "REJECT", "Total", 0, TRUE, FALSE, r.exc)
+    ELSE
+    LET in == r.in  out == r.out
+        paths == MDPaths(in, <<>>)
+        nontriv == paths # {}
+    IN IF out # StripMD(in) THEN Verdict(r.id, "REJECT", "Strip", 0, nontriv, in # out, "")
+       ELSE IF Len(r.extra) # Cardinality(paths) THEN
+            Verdict(r.id, "REJECT", "ListCount", 0, nontriv, in # out, "")
+       ELSE IF ~LinExt(in, r.extra, paths) THEN
+            Verdict(r.id, "REJECT", "ListOrder", 0, nontriv, in # out, "")
+       ELSE Verdict(r.id, "ACCEPT", "", 0, nontriv, in # out, "")
+
+JudgeRemoveEmpty(r) ==
+    IF r.exc # "" THEN Verdict(r.id, "REJECT", "Total", 0, TRUE, FALSE, r.exc)
+    ELSE
+    LET in == r.in  out == r.out
+        nontriv == \E w \in MDPaths(in, <<>>) : IsEmptyDict(At(in, w).a[3])
+    IN IF out # RemoveEmptyMD(in) THEN Verdict(r.id, "REJECT", "Exact", 0, nontriv, in # out, "")
+       ELSE IF ~r.flags.input_unchanged THEN
+            Verdict(r.id, "REJECT", "InputModified", 0, nontriv, in # out, "")
+       ELSE Verdict(r.id, "ACCEPT", "", 0, nontriv, in # out, "")
+
 Judge(r) ==
     CASE r.pass = "simplify" -> JudgeSimplify(r)
+      [] r.pass = "tofunc" -> JudgeToFunc(r)
+      [] r.pass = "aggregate" -> JudgeAggregate(r)
+      [] r.pass = "extract_md" -> JudgeExtract(r)
+      [] r.pass = "remove_empty_md" -> JudgeRemoveEmpty(r)
       [] OTHER -> Verdict(r.id, "UNMODELLED", "pass", 0, FALSE, FALSE, r.pass)
 
 VARIABLE l
